@@ -729,9 +729,12 @@ class IoContract(Generic[TermList_t]):
         logging.debug("****** Computing guarantees")
         g1_t = self.g.copy()
         g2_t = other.g.copy()
-        (g1, used) = g1_t.elim_vars_by_relaxing(g2_t, intvars, simplify, tactics_order)
+        # Each side is relaxed in the context of the other side without simplification:
+        # simplifying both sides against each other would drop a guarantee that both
+        # sides state (or imply). The union is simplified by the relaxation below.
+        (g1, used) = g1_t.elim_vars_by_relaxing(g2_t, intvars, False, tactics_order)  # noqa: WPS425
         tactics_used.append(used)
-        (g2, used) = g2_t.elim_vars_by_relaxing(g1_t, intvars, simplify, tactics_order)
+        (g2, used) = g2_t.elim_vars_by_relaxing(g1_t, intvars, False, tactics_order)  # noqa: WPS425
         tactics_used.append(used)
         allguarantees = g1 | g2
         (allguarantees, used) = allguarantees.elim_vars_by_relaxing(assumptions, intvars, simplify, tactics_order)
